@@ -1470,14 +1470,51 @@ def rule_concat(repo, col):
               'although documented')
     c = [n for n in body_walk(w) if isinstance(n, ast.Call) and isinstance(
         n.func, ast.Attribute) and n.func.attr == 'concat']
-    ok = len(c) == 1 and unparse(c[0].func.value) == '%s[0]' % p and \
-        c[0].args and unparse(c[0].args[0]) == '%s[1:]' % p and \
-        any(isinstance(a, ast.Starred) for a in c[0].args) and \
-        any(kw.arg is None for kw in c[0].keywords)
-    col.check(ok, rule, 'biom/__init__.py', 'concat', 'delegates', c[0]
-              if c else w, 'first table concatenates the rest; extra '
-              'arguments forwarded', 'biom.concat does not delegate '
-              'tables[0].concat(tables[1:], *args, **kwargs)')
+    # locals bound once to an expression over the parameter
+    binds = {}
+    for n in body_walk(w):
+        if isinstance(n, ast.Assign) and len(n.targets) == 1 and isinstance(
+                n.targets[0], ast.Name) and n.targets[0].id != p:
+            binds.setdefault(n.targets[0].id, []).append(n.value)
+
+    def res(e):
+        if isinstance(e, ast.Name) and len(binds.get(e.id, [])) == 1:
+            return res(binds[e.id][0])
+        if isinstance(e, ast.Call) and call_name(e) in ('list', 'tuple') \
+                and len(e.args) == 1:
+            return res(e.args[0])
+        return unparse(e)
+    verdicts = []
+    for call in c:
+        recv = res(call.func.value)
+        arg0 = res(call.args[0]) if call.args and not isinstance(
+            call.args[0], ast.Starred) else None
+        fwd = any(isinstance(a, ast.Starred) for a in call.args) and \
+            any(kw.arg is None for kw in call.keywords)
+        if not fwd:
+            verdicts.append((False, call, 'extra arguments not forwarded'))
+        elif recv == '%s[0]' % p and arg0 == '%s[1:]' % p:
+            verdicts.append((True, call, ''))
+        elif recv == p and arg0 in ('[]', '()'):
+            verdicts.append((True, call, ''))     # the lone-table form
+        elif recv == '%s[0]' % p and arg0 is not None and \
+                arg0.startswith('%s[' % p):
+            verdicts.append((False, call, 'rest is `%s`' % arg0))
+        else:
+            verdicts.append((None, call, 'form not recognised'))
+    if not c:
+        col.bad(rule, 'biom/__init__.py', 'concat', 'delegates', w,
+                'biom.concat does not call Table.concat')
+    for okv, call, why in verdicts:
+        if okv is None:
+            col.unknown(rule, 'biom/__init__.py', 'concat', 'delegates',
+                        call, why)
+        else:
+            col.check(okv, rule, 'biom/__init__.py', 'concat', 'delegates',
+                      call, 'first table concatenates the rest; extra '
+                      'arguments forwarded', 'biom.concat does not delegate '
+                      'tables[0].concat(tables[1:], *args, **kwargs): %s'
+                      % why)
 
 
 RULE_TEXT.update({
